@@ -305,7 +305,8 @@ def run_job(job, unit, workdir, log=print):
         else:
             htext = job['harness']
         # split: types+globals first, then ghosts/pre, then functions
-        full = '#define QX_CBMC 1\n' + gtext + pre + '\n' + text + '\n' + job.get('extra', '') + '\n' + htext
+        tdefs = 'typedef unsigned short qx_char16;\ntypedef unsigned int qx_char32;\ntypedef int qx_wchar;\n'
+        full = '#define QX_CBMC 1\n' + tdefs + gtext + pre + '\n' + text + '\n' + job.get('extra', '') + '\n' + htext
         cfile = os.path.join(jd, 'job.c')
         with open(cfile, 'w') as f:
             f.write(full)
